@@ -141,6 +141,12 @@ func (x *Exec) callValue(fr *Frame, st *State, c *ssa.CallCommon, fval Value, ar
 			orig(f, s, res)
 		}
 	}
+	if h, ok := bufferModel[key]; ok {
+		// bytes.Buffer model (zz_buffer.go): the receiver does not escape; a written slice does not
+		// either (its bytes are copied)
+		ret(fr, st, h(x, fr, st, c, args))
+		return
+	}
 	if h, ok := intrinsics[key]; ok {
 		x.escapeArgs(st, args)
 		ret(fr, st, h(x, fr, st, c, args))
